@@ -36,9 +36,9 @@ type Fam struct {
 
 var fams = map[string]*Fam{
 	"I": {Name: "I", Parts: []string{"K"}, Types: []string{"uint"},
-		Mod: map[string]interface{}{"P": IP{}, "O": IO{}, "M": IM{}, "T": IT{}, "G": IG{}, "N": IN{}, "L": IL{}, "C": IC{}, "U": IU{}}},
+		Mod: map[string]interface{}{"P": IP{}, "O": IO{}, "M": IM{}, "T": IT{}, "G": IG{}, "N": IN{}, "L": IL{}, "C": IC{}, "U": IU{}, "H": IH{}}},
 	"S": {Name: "S", Parts: []string{"K"}, Types: []string{"str"},
-		Mod: map[string]interface{}{"P": SP{}, "O": SO{}, "M": SM{}, "T": ST{}, "G": SG{}, "N": SN{}, "L": SL{}, "C": SC{}, "U": SU{}}},
+		Mod: map[string]interface{}{"P": SP{}, "O": SO{}, "M": SM{}, "T": ST{}, "G": SG{}, "N": SN{}, "L": SL{}, "C": SC{}, "U": SU{}, "H": SH{}}},
 	"C": {Name: "C", Parts: []string{"A", "B"}, Types: []string{"str", "str"},
 		Mod: map[string]interface{}{"P": CP{}, "O": CO{}, "M": CM{}, "T": CT{}, "G": CG{}}},
 	"M": {Name: "M", Parts: []string{"N", "S"}, Types: []string{"int", "str"},
@@ -128,6 +128,8 @@ func (f *Fam) rels() map[string]Rel {
 		st := []string{"str"}
 		m["Labels"] = Rel{Name: "Labels", Kind: "polymorphic_fk_tag", On: "P", Child: "L", PF: []string{"Code"}, CF: []string{"OwnerID"}, KT: st, CPtr: true, Poly: "xp"}
 		m["Cover"] = Rel{Name: "Cover", Kind: "polymorphic_has_one_fk_tag", On: "P", Child: "C", Single: true, PF: []string{"Code"}, CF: []string{"OwnerID"}, KT: st, CPtr: true, Poly: "xp"}
+		m["CTags"] = Rel{Name: "CTags", Kind: "many2many_non_primary_references", On: "P", Child: "H", M2M: true, PF: []string{"Code"}, CF: []string{"Code"}, KT: st,
+			JTable: strings.ToLower(f.Name) + "p_ctags", JOwner: []string{"owner_code"}, JTag: []string{"tag_code"}, Tbl: "J3"}
 		m["Subs"] = Rel{Name: "Subs", Kind: "has_many_references_tag", On: "P", Child: "U", PF: []string{"Code"}, CF: []string{"PCode"}, KT: st, CPtr: true}
 	}
 	return m
@@ -150,7 +152,7 @@ func (f *Fam) relNamesOnP() []string {
 		out = append(out, "Notes")
 	}
 	if _, ok := f.Mod["L"]; ok {
-		out = append(out, "Labels", "Cover", "Subs")
+		out = append(out, "Labels", "Cover", "Subs", "CTags")
 	}
 	return out
 }
@@ -302,6 +304,7 @@ type Input struct {
 	AllFirst   bool             `json:"all_first,omitempty"`    // order of the two Preload calls
 	Reload     *Reload          `json:"reload,omitempty"`
 	JoinNested string           `json:"join_nested,omitempty"` // joins mode: also Joins(Rel + "." + JoinNested), a nested relation join
+	Kept       bool             `json:"kept,omitempty"`        // assoc mode: ONE *Association is kept and used for Find(Cond), Find(Cond2), Find(), Count()
 	DupPtr     bool             `json:"dup_ptr,omitempty"`     // assoc mode, pointer slice: the SAME parent pointer occurs twice in the owners slice
 	AllAssoc   bool             `json:"all_assoc,omitempty"`
 	Cond       Cond             `json:"cond"`
@@ -713,8 +716,8 @@ func (e *Env) dumpJoins(f *Fam, rel Rel) []JoinRow {
 		lib.Must(rows.Scan(ptrs...))
 		var j JoinRow
 		for i := 0; i < n; i++ {
-			j.L = append(j.L, kpOfRaw(typOf(f, i), false, raw[i]))
-			j.R = append(j.R, kpOfRaw(typOf(f, i), false, raw[n+i]))
+			j.L = append(j.L, kpOfRaw(f.kt(rel)[i], false, raw[i]))
+			j.R = append(j.R, kpOfRaw(f.kt(rel)[i], false, raw[n+i]))
 		}
 		out = append(out, j)
 	}
@@ -951,49 +954,75 @@ func (e *Env) run(in Input) []Obs {
 	var out []Obs
 	if in.Mode == "assoc" {
 		ct := reflect.TypeOf(f.Mod[rel.Child])
-		res := reflect.New(reflect.SliceOf(ct))
 		adb := db.Session(&gorm.Session{})
 		if in.Unscoped {
 			adb = adb.Unscoped()
 		}
-		var aerr error
 		if in.DupPtr && in.Shape == "ptrs" && dest.Elem().Len() > 0 {
 			// a user-built owners slice holding the same record twice (same pointer)
 			dest.Elem().Set(reflect.Append(dest.Elem(), dest.Elem().Index(0)))
 			ps = parentObjs(dest, in.Shape)
 		}
-		if code == 0 {
-			aerr = adb.Model(dest.Interface()).Association(rel.Name).Find(res.Interface(), condArgs(cond1)...)
-		}
-		ids := []int64{}
-		for i := 0; i < res.Elem().Len(); i++ {
-			ids = append(ids, uidOf(res.Elem().Index(i)))
-		}
-		if code == 0 && aerr == nil && (cond1.Kind == "all" || cond1.Kind == "") {
-			// Count() reports the number of rows Find() returns
-			if cnt := adb.Model(dest.Interface()).Association(rel.Name).Count(); int(cnt) != len(ids) {
-				aerr = fmt.Errorf("Count() = %d but Find() returned %d rows", cnt, len(ids))
+		// the calls: one Find, or - kept handle - several reads through ONE *Association:
+		// Find(conds), Find(other conds), Find() and Count(), each judged on its own
+		calls := []Cond{cond1}
+		if in.Kept {
+			c2 := in.Cond2
+			if c2.As == "scope" {
+				c2.As = "inline"
 			}
+			calls = []Cond{cond1, c2, {Kind: "all"}}
 		}
-		sort.Slice(ids, func(i, j int) bool { return ids[i] < ids[j] })
-		if rel.M2M && len(ps) > 1 { // a target linked to several owners is returned once per owner
-			ids = dedupe(ids)
+		var kept *gorm.Association
+		handle := func() *gorm.Association {
+			if !in.Kept {
+				return adb.Model(dest.Interface()).Association(rel.Name)
+			}
+			if kept == nil {
+				kept = adb.Model(dest.Interface()).Association(rel.Name)
+			}
+			return kept
 		}
-		o := Obs{Rel: rel.Name, Mode: "MAssocFind", M2M: rel.M2M, hop: hop1, hop2: Hop{Cond: Cond{Kind: "all"}}}
-		for _, p := range ps {
-			o.Parents = append(o.Parents, keyOfObj(p, rel.PF))
+		var obs []Obs
+		for _, cc := range calls {
+			res := reflect.New(reflect.SliceOf(ct))
+			var aerr error
+			if code == 0 {
+				aerr = handle().Find(res.Interface(), condArgs(cc)...)
+			}
+			ids := []int64{}
+			for i := 0; i < res.Elem().Len(); i++ {
+				ids = append(ids, uidOf(res.Elem().Index(i)))
+			}
+			if code == 0 && aerr == nil && (cc.Kind == "all" || cc.Kind == "") {
+				// Count() reports the number of rows Find() returns
+				if cnt := handle().Count(); int(cnt) != len(ids) {
+					aerr = fmt.Errorf("Count() = %d but Find() returned %d rows", cnt, len(ids))
+				}
+			}
+			sort.Slice(ids, func(i, j int) bool { return ids[i] < ids[j] })
+			if rel.M2M && len(ps) > 1 { // a target linked to several owners is returned once per owner
+				ids = dedupe(ids)
+			}
+			h := hop1
+			h.Cond = cc
+			o := Obs{Rel: rel.Name, Mode: "MAssocFind", M2M: rel.M2M, hop: h, hop2: Hop{Cond: Cond{Kind: "all"}}}
+			for _, p := range ps {
+				o.Parents = append(o.Parents, keyOfObj(p, rel.PF))
+			}
+			o.Att = [][]int64{ids}
+			o.Err, o.ErrText = code, etext
+			if code == 0 {
+				o.Err, o.ErrText = errCode(aerr)
+			}
+			o.children = e.dump(f, rel, nil, false)
+			if rel.M2M {
+				o.joins = e.dumpJoins(f, rel)
+			}
+			o.PKeys = printable(o.Parents)
+			obs = append(obs, o)
 		}
-		o.Att = [][]int64{ids}
-		if code == 0 {
-			code, etext = errCode(aerr)
-		}
-		o.Err, o.ErrText = code, etext
-		o.children = e.dump(f, rel, nil, false)
-		if rel.M2M {
-			o.joins = e.dumpJoins(f, rel)
-		}
-		o.PKeys = printable(o.Parents)
-		return []Obs{o}
+		return obs
 	}
 
 	for _, rn := range obsRels {
@@ -1458,6 +1487,13 @@ func genInput(r *lib.Rng, edge bool) Input {
 	}
 	if in.Mode == "assoc" {
 		in.DupPtr = r.Chance(1, 4)
+		if r.Chance(1, 2) {
+			in.Kept = true
+			in.Cond2 = genCond()
+			for tries := 0; in.Cond.Kind == "all" && tries < 3; tries++ {
+				in.Cond = genCond()
+			}
+		}
 	}
 	if in.Nested != "" {
 		// self-referential relations are walked repeatedly: Boss.Boss.X, Team.Team.Team, ...
@@ -1636,6 +1672,37 @@ func genInput(r *lib.Rng, edge bool) Input {
 			row.F["ID"] = VI(uid)
 			row.F[rels["Subs"].CF[0]] = fkChoice(r, codes, strays, 1, 70, 12, 18)[0]
 			in.Tables["U"] = append(in.Tables["U"], row)
+		}
+		if ct, ok := rels["CTags"]; ok {
+			// tags keyed by a unique Code that is NOT their primary key; some codes read like ids
+			var hcodes [][]Val
+			for i, n := 0, r.Range(1, 5); i < n; i++ {
+				c := []Val{VS(lib.Pick(r, codePool))}
+				if hasTuple(hcodes, c) || *c[0].S == "" {
+					continue
+				}
+				hcodes = append(hcodes, c)
+				row := base()
+				row.F["ID"] = VI(int64(len(hcodes)))
+				row.F["Code"] = c[0]
+				in.Tables["H"] = append(in.Tables["H"], row)
+			}
+			var seen [][]Val
+			for i, n := 0, r.Range(1, 9); i < n && len(codes) > 0 && len(hcodes) > 0; i++ {
+				l, g := lib.Pick(r, codes), lib.Pick(r, hcodes)
+				if r.Chance(1, 6) {
+					g = lib.Pick(r, strays)
+				}
+				both := append(append([]Val{}, l...), g...)
+				if hasTuple(seen, both) {
+					continue
+				}
+				seen = append(seen, both)
+				row := Row{F: map[string]Val{}}
+				setKey(&row, ct.JOwner, l)
+				setKey(&row, ct.JTag, g)
+				in.Tables["J3"] = append(in.Tables["J3"], row)
+			}
 		}
 	}
 	var jseen [][]Val
@@ -1912,6 +1979,30 @@ func targetedInputs() []Input {
 			}
 		}
 		out = append(out, Input{Fam: fam, Rel: "Cover", Mode: "joins", Shape: "slice", Cond: all, Cond2: all, Tables: tables})
+		// many2many through NON-primary unique columns on both sides, read by Association().Find / Count
+		// (one call, and several calls through one kept handle) with Preload as the cross-check
+		hs := []Row{}
+		for i, c := range []string{"3", "1", "t_x"} {
+			hs = append(hs, Row{F: map[string]Val{"UID": VI(int64(501 + i)), "V": VI(int64(i + 1)), "ID": VI(int64(i + 1)), "Code": VS(c)}})
+		}
+		j3 := []Row{}
+		for _, lc := range [][2]string{{"2", "3"}, {"2", "t_x"}, {"1", "1"}, {"x_3", "3"}, {"nil", "t_x"}} {
+			j3 = append(j3, Row{F: map[string]Val{"owner_code": VS(lc[0]), "tag_code": VS(lc[1])}})
+		}
+		t2 := map[string][]Row{"P": ps, "L": ls, "C": cs, "U": us, "H": hs, "J3": j3}
+		gt1 := Cond{Kind: "gt", A: 1, As: "inline"}
+		for _, sh := range []string{"slice", "ptrs", "struct"} {
+			var sub []int64
+			if sh == "struct" {
+				sub = []int64{101}
+			}
+			out = append(out,
+				Input{Fam: fam, Rel: "CTags", Mode: "preload", Shape: sh, Subset: sub, Cond: all, Cond2: all, Tables: t2},
+				Input{Fam: fam, Rel: "CTags", Mode: "assoc", Shape: sh, Subset: sub, Cond: all, Cond2: all, Tables: t2},
+				Input{Fam: fam, Rel: "CTags", Mode: "assoc", Shape: sh, Subset: sub, Kept: true, Cond: gt1, Cond2: Cond{Kind: "mod", A: 2, B: 1, As: "inline"}, Tables: t2},
+				Input{Fam: fam, Rel: "Labels", Mode: "assoc", Shape: sh, Subset: sub, Kept: true, Cond: Cond{Kind: "gt", A: 0, As: "inline"}, Cond2: all, Tables: t2},
+				Input{Fam: fam, Rel: "Subs", Mode: "assoc", Shape: sh, Subset: sub, Kept: true, Cond: Cond{Kind: "none", As: "inline"}, Cond2: gt1, Tables: t2})
+		}
 	}
 	// (e) one query with Preload(Rel, own conditions) AND Preload(clause.Associations, scope), in both
 	//     orders, the scope filtering by v and / or calling Unscoped(); (f) the SAME destination loaded
@@ -2054,7 +2145,7 @@ func shapeOf(in Input) string {
 	fl := []byte(flags)
 	sort.Slice(fl, func(i, j int) bool { return fl[i] < fl[j] })
 	return fmt.Sprintf("%s.%s|%s|inner=%v|n=%s|all=%v|c=%s%s,%s%s|u=%v|%s|dup=%v|sub=%d|P%d,O%d,M%d,T%d,G%d,N%d,J%d|%s",
-		in.Fam, in.Rel, in.Mode, in.Inner, in.Nested+"."+in.Nested2+fmt.Sprint("|both=", in.Both, in.CondAll.Kind, in.AllUnsc, in.AllFirst, "|reload=", in.Reload != nil, "|jn=", in.JoinNested, "|dp=", in.DupPtr), in.AllAssoc, in.Cond.Kind, in.Cond.As, in.Cond2.Kind, in.Cond2.As, in.Unscoped,
+		in.Fam, in.Rel, in.Mode, in.Inner, in.Nested+"."+in.Nested2+fmt.Sprint("|both=", in.Both, in.CondAll.Kind, in.AllUnsc, in.AllFirst, "|reload=", in.Reload != nil, "|jn=", in.JoinNested, "|dp=", in.DupPtr, "|kept=", in.Kept), in.AllAssoc, in.Cond.Kind, in.Cond.As, in.Cond2.Kind, in.Cond2.As, in.Unscoped,
 		in.Shape, in.Dup, len(in.Subset), n("P"), n("O"), n("M"), n("T"), n("G"), n("N"), n("J"), string(fl))
 }
 
@@ -2076,7 +2167,7 @@ func main() {
 	lib.Must(err)
 	for _, fn := range famNames {
 		f := fams[fn]
-		for _, m := range []string{"T", "G", "P", "O", "M", "N", "L", "C", "U"} {
+		for _, m := range []string{"T", "G", "H", "P", "O", "M", "N", "L", "C", "U"} {
 			if mod, ok := f.Mod[m]; ok {
 				lib.Must(db.AutoMigrate(reflect.New(reflect.TypeOf(mod)).Interface()))
 			}
